@@ -180,6 +180,37 @@ def run_typed(chk, wd, binp):
     return tot["tours"]
 
 
+ARGS_CFG = """SPECIFICATION Spec
+INVARIANTS MapOK
+PROPERTIES Essential Unmap FrozenStays
+ACTION_CONSTRAINT Emit
+VIEW View
+CHECK_DEADLOCK FALSE
+"""
+ARGS_INIT = {"prop": {"k": "data", "v": "v1", "w": "T", "g": "-", "s": "-", "e": "T", "c": "T"}, "mapped": "T", "pv": "v1", "ext": "T"}
+
+
+def run_args(chk, wd, binp):
+    """ObjArgs.tla: the mapped arguments exotic object."""
+    gwd = os.path.join(wd, "args")
+    os.makedirs(gwd, exist_ok=True)
+    with phase(chk, "tlc-args"):
+        g, st = edges.build_graph("ObjArgs", ARGS_CFG, gwd, ARGS_INIT, obs0=ARGS_INIT, timeout=600)
+    chk.add("states", st["states"])
+    chk.add("transitions", st["transitions"])
+    ad = os.path.join(HARNESS, "adaptors", "objargs.js")
+    with phase(chk, "replay-args"):
+        reps, crashes = rp.run_walkers(binp, g, gwd, ["-adaptor", ad], procs=2, walks=30, walklen=30, maxtour=30, timeout=1200)
+    tot, nodes = rp.fold(chk, reps, crashes, "ObjArgs", {}, {"module": "ObjArgs"})
+    chk.add("edges_replayed", tot["covered"])
+    chk.add("distinct_nontrivial", tot["nontrivial"])
+    chk.add("evaluations", tot["steps"])
+    chk.setcov("edges_per_graph_args", tot["edges"])
+    if tot["covered"] + tot["lost_to_known"] < tot["mine"] and not chk.violations:
+        raise Inconclusive("ObjArgs: %d of %d assigned edges not replayed" % (tot["mine"] - tot["covered"], tot["mine"]))
+    return tot["tours"]
+
+
 def run(chk, tier):
     wd = workdir("C04")
     thorough = tier == "thorough"
@@ -194,9 +225,12 @@ def run(chk, tier):
                             kinds_filter=os.environ.get("VERIF_KINDS", "").split(",") if os.environ.get("VERIF_KINDS") else None)
     if not only or "typed" in only.split(","):
         tours += run_typed(chk, wd, binp)
+    if not only or "args" in only.split(","):
+        tours += run_args(chk, wd, binp)
     chk.setcov("traces_validated_against_impl", tours)
     chk.setcov("exhaustive", True)
-    chk.setcov("rule", "ObjTyped.tla: every transition (7 keys: valid / out-of-range / -0 / fractional / NaN canonical numeric strings and a non-canonical "
+    chk.setcov("rule", "ObjArgs.tla: every transition (mapped index of a sloppy arguments object: 729 descriptor shapes, set / delete / freeze / seal, "
+               "writes through the parameter) replayed on a real arguments object. ObjTyped.tla: every transition (7 keys: valid / out-of-range / -0 / fractional / NaN canonical numeric strings and a non-canonical "
                "one, 162 descriptor shapes, Reflect / Object / syntax issuers, receivers, integrity levels, detach) replayed on a real Uint8Array. "
                "Every transition TLC generates for Obj.tla (cell: 1 object x 1 key x all 729 descriptor shapes x issuers; "
                "chain: child/parent x receivers; proto: prototype surgery; order: own-key order) is replayed on real objects of "
@@ -210,11 +244,12 @@ def replay(path):
     import subprocess
     d = json.load(open(path))
     m = d["replay"]
-    if m.get("module") == "ObjTyped":
+    if m.get("module") in ("ObjTyped", "ObjArgs"):
         wd = workdir("C04r")
         binp = os.path.join(wd, "jsreplay")
         go_build("jsreplay", binp)
-        r = subprocess.run([binp, "-replay", path, "-adaptor", os.path.join(HARNESS, "adaptors", "objtyped.js")], stdout=subprocess.PIPE, text=True)
+        r = subprocess.run([binp, "-replay", path, "-adaptor", os.path.join(HARNESS, "adaptors", "objtyped.js" if m["module"] == "ObjTyped" else "objargs.js")],
+                           stdout=subprocess.PIPE, text=True)
         got = json.loads(r.stdout)
         for l in m.get("path", []):
             print("   ", json.dumps(l))
